@@ -22,7 +22,7 @@ from simkit.world import StreamPlan, World
 PROP = "C19"
 LEVEL = "fault_enumeration"
 HASHSEED_VARIES = True
-RUN_WALL_S = 20  # a run takes ~30 ms; a pool that is never pumped must not stall the batch for a minute
+RUN_WALL_S = 90  # a run takes ~30 ms; a pool that is never pumped must not stall the batch for a minute
 TIERS = {"quick": 2400, "thorough": 60000}
 LOCALE_VARIES = True  # three of the sixteen shards run in a non-UTF-8 locale (simkit/runner.py: hashseed_for)
 RULE = (
@@ -80,10 +80,12 @@ def generate(rng: Prng, tier: str) -> dict:
             pick = sorted(w.sample(names, min(k, len(names))))
         files += [f"r{r}/{p}" for p in pick]
         for o in OTHER:
-            if w.chance(0.25):
+            if w.chance(0.25) and not (o.startswith("trap.swc/") and f"r{r}/trap.swc" in files):
                 files.append(f"r{r}/{o}")
         if w.chance(0.15):
             files.append(f"r{r}/trap.swc/in.swc")
+        if not any(f.startswith(f"r{r}/trap.swc/") for f in files) and rng.stream(f"trapfile{r}").chance(0.2):
+            files.append(f"r{r}/trap.swc")  # a regular file where another root may have a folder of that name
         hid = rng.stream(f"hidden{r}")
         if hid.chance(0.2):
             # hidden folders and files (a name starting with a dot), next to a visible twin of the same name
@@ -112,6 +114,13 @@ def generate(rng: Prng, tier: str) -> dict:
         elif kind == "slice":
             ops.append({"op": "slice", "h": h, "a": w.choice([None, 0, 1, 2, -1, -3, 5]),
                         "b": w.choice([None, 0, 1, 3, -1, 8, 100]), "c": w.choice([None, None, 1, 2, 3, -1, -2])})
+            vw = rng.stream(f"view{len(ops)}")
+            if vw.chance(0.4):
+                # a population built on that slice, sliced again (open, negative and clamped bounds) and indexed
+                ops.append({"op": "wrap", "h": -1})
+                ops.append({"op": "slice", "h": -1, "a": vw.choice([None, 1, -2, -6, 0]), "b": vw.choice([None, -1, 2, 100]),
+                            "c": vw.choice([None, None, -1, 2])})
+                ops.append({"op": "idx", "h": -1, "i": vw.randint(-3, 3)})
         elif kind == "iter":
             ops.append({"op": "iter", "h": h, "m": w.choice([None, None, 1, 2, 5])})
         elif kind == "pops":
@@ -131,6 +140,8 @@ def generate(rng: Prng, tier: str) -> dict:
             ops.append({"op": "map", "h": h, "max_worker": w.choice([None, 1, 2, 3, 8]), "verbose": w.chance(0.1)})
         elif kind == "ptrans":
             ops.append({"op": "ptrans", "h": h})
+            if w.chance(0.5):
+                ops.append({"op": "wrap", "h": w.below(64)})  # Population(view): a population backed by a slice
         else:
             ops.append({"op": "fault", "kind": fp.choice(["corrupt", "delete", "eio", "truncate"]),
                         "f": fp.below(64), "at": round(fp.random(), 4)})
@@ -141,6 +152,16 @@ def generate(rng: Prng, tier: str) -> dict:
     stream = {}
     if faulting and fp.chance(0.4):
         stream = {"chunks": [fp.choice([1, 3, 17, 4096])], "buffer_size": fp.choice([1, 7, 512, 8192])}
+    # a name cannot be a regular file and a folder in the same root
+    files = [f for f in files if not any(g.startswith(f + "/") for g in files)]
+    hg = rng.stream("huge")
+    if hg.chance(0.0015):
+        # more files than any plausible cache bound, all loaded by one full iteration, the first ones asked for again
+        n_roots, dirs, listing, stream, pool_sched = 1, [], [], {}, []
+        files = [f"r0/h{i:04d}.swc" for i in range(1040 + hg.below(120))]
+        ops = [{"op": "pop", "root": 0, "slash": False}, {"op": "iter", "h": 0, "m": None}, {"op": "idx", "h": 0, "i": 0},
+               {"op": "idx", "h": 0, "i": 7}, {"op": "idx", "h": 0, "i": -1}, {"op": "iter", "h": 0, "m": 5}]
+        faulting = False
     opts = rng.stream("read_opts")
     # read options forwarded to every lazy read: with sort_nodes the files list their rows out of order with sparse
     # ids, so a read that loses the option hands out a tree that is not the file's tree
@@ -194,7 +215,7 @@ class Handle:
     def bases(self):
         if self.kind == "P":
             return [self.base]
-        if self.kind in ("S", "T"):
+        if self.kind in ("S", "T", "W"):
             return self.parent.bases()
         if self.kind in ("C", "CP"):
             out = []
@@ -217,6 +238,8 @@ class Handle:
         if self.kind == "T":
             b, k, _ = self.parent.resolve(j)
             return (b, k, True)
+        if self.kind == "W":
+            return self.parent.resolve(j)
         if self.kind in ("C", "CP"):
             lens = [(m.n if m is not None else 0) for m in self.members]
             m, off = pop_model.chain_locate(lens, j)
@@ -507,7 +530,7 @@ class Sim:
                 outcome = self.access(h, op["i"], f"index({h.kind})")
                 hk = h.kind
         elif kind == "slice":
-            h = self.pick(op["h"], ("P", "CP", "T"))
+            h = self.pick(op["h"], ("P", "CP", "T", "W"))
             if h is not None:
                 mark = len(w.open_log)
                 sl = slice(op["a"], op["b"], op["c"])
@@ -643,6 +666,27 @@ class Sim:
                     outcome = "ok"
                     if simpool._STATE.out_of_order > before:
                         w.probe("c19.map_completed_out_of_order")
+        elif kind == "wrap":
+            h = self.pick(op["h"], ("S",))
+            if h is not None and h.n > 0:
+                hk = "S"
+                mark = len(w.open_log)
+                try:
+                    obj = Population(h.obj)
+                except Exception as e:  # noqa: BLE001
+                    if self.may_fail(h, 0):
+                        self.settle(mark, [], True, "Population(view)")
+                        outcome = "raised"
+                    else:
+                        raise Violation("unexpected_exception", "Population(view)", f"{type(e).__name__}: {e}"[:300])
+                else:
+                    # the constructor may look at element 0 of the view (the probe the statement allows)
+                    self.settle(mark, [], False, "Population(view)", h.bases())
+                    wv = Handle("W", obj, h.n, parent=h)
+                    self.handles.append(wv)
+                    self.check_len(wv, "Population(view)")
+                    outcome, hk = "ok", "W"
+                    w.probe("c19.population_backed_by_a_view")
         elif kind == "ptrans":
             h = self.pick(op["h"], ("P", "CP"))
             if h is not None:
